@@ -24,6 +24,7 @@ impl TEl {
 }
 impl Clone for TEl {
     fn clone(&self) -> Self {
+        env::note_clone();
         env::tick(Class::Clone);
         TEl { id: self.id, tok: self.tok, serial: env::reg_new() }
     }
@@ -600,7 +601,9 @@ impl TabHarness {
                 chk!(c, s.table.capacity() >= len.max(m.min(cap)), "shrink_to({m}) left capacity {}", s.table.capacity());
             }
             TabOp::CloneSwap => {
+                let c0 = env::clone_count();
                 let cl = s.table.clone();
+                chk!(c, env::clone_count() - c0 == s.model.len() as u64, "clone() of {} elements called Clone::clone {} times", s.model.len(), env::clone_count() - c0);
                 let mut got: Vec<(u8, u32)> = cl.iter().map(|e| (e.id, e.tok)).collect();
                 got.sort_unstable();
                 let mut want = s.model.clone();
